@@ -289,16 +289,18 @@ def cases_for(tier, what="geo,T"):
             n["line"] = line.replace("id=" + s["id"], "id=" + n["id"]) + " csplit=" + ol.fl(sp)
             n["csplit"] = cc
             extra_cases.append(n)
-    # thorough: pairs whose fine grid has more than 10 000 nodes, so that every transfer runs the branch behind its
+    # pairs whose fine grid has more than 10 000 nodes (quick: the 41x256 pair only; thorough: both), so that every transfer runs the branch behind its
     # 'numberOfNodes() > 10 000' clause, with a team of 3 real threads; all 57 440 columns extracted like on the small pairs
     big = []
-    if tier == "thorough" and what == "geo,T":
+    if what == "geo,T":
         for k, (nr, nt, dirbc) in enumerate(((65, 160, 0), (41, 256, 1))):
+            if tier != "thorough" and k == 0:
+                continue
             radii = ol.make_radii(nr, ol.R0S[k % 3], ol.RMAXS[0], ol.R_PATTERNS[1 + k])
-            angles = ol.make_angles(nt, ol.T_PATTERNS[k % 3])
+            angles = ol.make_angles(nt, ol.T_PATTERNS[(2 * k) % 3])
             geom, kappa, delta = ol.GEOMS[1 + k]
             cid = "b%05d" % k
-            spec = ol.CaseSpec(id=cid, nr=nr, nt=nt, circles="auto", dirbc=dirbc, rpat=ol.R_PATTERNS[1 + k], tpat=ol.T_PATTERNS[k % 3],
+            spec = ol.CaseSpec(id=cid, nr=nr, nt=nt, circles="auto", dirbc=dirbc, rpat=ol.R_PATTERNS[1 + k], tpat=ol.T_PATTERNS[(2 * k) % 3],
                                geom=geom, kappa=kappa, delta=delta, alpha=2, beta=1, R0=ol.R0S[k % 3], Rmax=ol.RMAXS[0], threads=3)
             spec["line"] = ol.case_line(cid, radii, angles, None, geom, kappa, delta, 2, 1, ol.RMAXS[0], dirbc, what,
                                         extra={"tlist": "3"}, threads=3)
